@@ -475,7 +475,7 @@ let gen_header (opname : string) : string =
     | "for_each" -> "op=for_each"
     | "merge" -> Printf.sprintf "op=merge n=%d" (if rand 7 = 0 then 4 + rand 3 else 1 + rand 3)
     | "concat" -> Printf.sprintf "op=concat n=%d" (if rand 7 = 0 then 4 + rand 3 else 1 + rand 3)
-    | "combine" -> Printf.sprintf "op=combine n=%d" (1 + rand 3)
+    | "combine" -> Printf.sprintf "op=combine n=%d" (if rand 8 = 0 then 4 + rand 9 else 1 + rand 3)
     | "flatten" -> "op=flatten"
     | "share" -> Printf.sprintf "op=share sinks=%d" (1 + rand 3)
     | "interval" -> "op=interval"
